@@ -1,7 +1,7 @@
 #!/bin/bash
 # Extracts the models to OCaml and builds build/modelrun.
 set -e
-V=/verif
+V=${VERIF_ROOT:-$(cd "$(dirname "$0")/.." && pwd)}
 mkdir -p $V/build/ocaml && cd $V/build/ocaml
 rm -f model.ml model.mli
 timeout 600 coqc -Q $V/coq LogV $V/coq/Extract/Extract.v -o $V/build/ocaml/Extract.vo > extract.log 2>&1 || { cat extract.log; exit 1; }
